@@ -338,7 +338,7 @@ func writeEvidence(tier string, seed uint64, start time.Time, st *Stats, b *comm
 		"max_keys_seen_per_iteration_site":      st.SiteMax.Map(),
 		"configurations_by_kind":                st.Counts.Map(),
 		"fault_kinds_fired":   "none: C16 has no faults, only schedules and configurations",
-		"components":          common.Components(),
+		"components":          common.Components("B"),
 		"seam_sites":          len(b.Sites),
 		"limits":              "orders derived from heap addresses without going through a map walk (e.g. sorting by %p) are outside the seam; only the repeat configurations could catch them, probabilistically",
 	}
